@@ -158,7 +158,13 @@ func evalC10(t *testing.T, c *Case, st *Stats, relax Relax) *Violation {
 	prev := map[string]int{}
 	for i, s := range snaps {
 		for _, seam := range faultSeams {
-			for k := prev[seam] + 1; k <= s[seam]; k++ {
+			hi := s[seam]
+			if asyncCodec(c.Cfg) && (seam == "drive.read" || seam == "drive.write" || seam == "drive.seek") && hi > prev[seam]+12 {
+				// helper goroutines of concurrent codecs read ahead: only the first
+				// byte-level calls of a call are the same in every execution
+				hi = prev[seam] + 12
+			}
+			for k := prev[seam] + 1; k <= hi; k++ {
 				points = append(points, faultPoint{Call: i, F: Fault{Seam: seam, K: k}})
 				if seam == "drive.write" {
 					points = append(points, faultPoint{Call: i, F: Fault{Seam: seam, K: k, Arg: 1 + (k*37)%400}})
